@@ -82,15 +82,15 @@ pub fn take_events() -> Vec<Event> {
     EVENTS.with(|e| std::mem::take(&mut *e.borrow_mut()))
 }
 
-pub fn tn<T: ?Sized>(_: &T) -> &'static str {
+pub fn tn<T: ?::core::marker::Sized>(_: &T) -> &'static str {
     std::any::type_name::<T>()
 }
 
-pub fn tn_of<T: ?Sized>() -> &'static str {
+pub fn tn_of<T: ?::core::marker::Sized>() -> &'static str {
     std::any::type_name::<T>()
 }
 
-pub fn addr<T: ?Sized>(t: &T) -> u64 {
+pub fn addr<T: ?::core::marker::Sized>(t: &T) -> u64 {
     t as *const T as *const () as usize as u64
 }
 
@@ -105,7 +105,7 @@ impl<T: Tag> Tag for Impl<T> {
     }
 }
 
-impl<T: Tag + ?Sized> Tag for &T {
+impl<T: Tag + ?::core::marker::Sized> Tag for &T {
     fn tag(&self) -> u64 {
         (**self).tag()
     }
@@ -236,12 +236,12 @@ pub fn alloc_bytes() -> u64 {
 macro_rules! implements {
     ($t:ty : $($b:tt)+) => {{
         #[allow(dead_code, non_camel_case_types)]
-        struct __P<__PT: ?Sized>(::core::marker::PhantomData<__PT>);
+        struct __P<__PT: ?::core::marker::Sized>(::core::marker::PhantomData<__PT>);
         #[allow(dead_code, non_camel_case_types)]
         trait __Fb { fn __vrt_get(&self) -> bool { false } }
-        impl<__PT: ?Sized> __Fb for __P<__PT> {}
+        impl<__PT: ?::core::marker::Sized> __Fb for __P<__PT> {}
         #[allow(dead_code)]
-        impl<__PT: ?Sized + $($b)+> __P<__PT> { fn __vrt_get(&self) -> bool { true } }
+        impl<__PT: ?::core::marker::Sized + $($b)+> __P<__PT> { fn __vrt_get(&self) -> bool { true } }
         __P::<$t>(::core::marker::PhantomData).__vrt_get()
     }};
 }
@@ -252,12 +252,12 @@ macro_rules! implements {
 macro_rules! value_is {
     ($v:expr ; $($b:tt)+) => {{
         #[allow(dead_code, non_camel_case_types)]
-        struct __PV<'__a, __PT: ?Sized>(&'__a __PT);
+        struct __PV<'__a, __PT: ?::core::marker::Sized>(&'__a __PT);
         #[allow(dead_code, non_camel_case_types)]
         trait __Fb { fn __vrt_get(&self) -> bool { false } }
-        impl<'__a, __PT: ?Sized> __Fb for __PV<'__a, __PT> {}
+        impl<'__a, __PT: ?::core::marker::Sized> __Fb for __PV<'__a, __PT> {}
         #[allow(dead_code)]
-        impl<'__a, __PT: ?Sized + $($b)+> __PV<'__a, __PT> { fn __vrt_get(&self) -> bool { true } }
+        impl<'__a, __PT: ?::core::marker::Sized + $($b)+> __PV<'__a, __PT> { fn __vrt_get(&self) -> bool { true } }
         __PV($v).__vrt_get()
     }};
 }
